@@ -2,11 +2,16 @@ package drv
 
 import (
 	"fmt"
+	"os"
 	"runtime"
 	"strings"
 	"testing"
 	"testing/synctest"
+	"time"
 )
+
+// BubbleLimit is the virtual-time budget of one bubble.
+var BubbleLimit = 72 * time.Hour
 
 // Bubble runs fn inside a synctest bubble (virtual time; every goroutine started inside belongs to it).
 // If the bubble deadlocks - some goroutine of the bubble stays durably blocked after fn returned, or every
@@ -31,7 +36,27 @@ func Bubble(t *testing.T, fn func()) (deadlock string, stacks string) {
 			stacks = strings.Join(keep, "\n\n")
 		}
 	}()
-	synctest.Test(t, func(t *testing.T) { fn() })
+	synctest.Test(t, func(t *testing.T) {
+		// Runaway guard. If fn blocks for ever while some periodic timer (a keep-alive ping, say) keeps firing, the
+		// bubble is never idle: virtual time races ahead and the process would spin until the outer watchdog. After
+		// BubbleLimit of VIRTUAL time the guard dumps the bubble's goroutines and ends the process; check.sh reports
+		// the crash with the log as witness. This is decided on virtual time, not on the wall clock.
+		done := make(chan struct{})
+		go func() {
+			tm := time.NewTimer(BubbleLimit)
+			defer tm.Stop()
+			select {
+			case <-done:
+			case <-tm.C:
+				buf := make([]byte, 8<<20)
+				buf = buf[:runtime.Stack(buf, true)]
+				fmt.Fprintf(os.Stderr, "BUBBLE-RUNAWAY: the bubble's main goroutine is still blocked after %v of virtual time; rueidis frames: %v\n%s\n", BubbleLimit, RueidisFrames(string(buf)), buf)
+				panic("drv.Bubble: virtual-time watchdog: main bubble goroutine blocked for ever (see BUBBLE-RUNAWAY above)")
+			}
+		}()
+		fn()
+		close(done)
+	})
 	return "", ""
 }
 
